@@ -1,4 +1,5 @@
 import HmsProofs.Lemmas.SimHTry
+import HmsProofs.Lemmas.SimHIdxAsg
 /-!
 # Single statements of the general fragment
 -/
@@ -8,7 +9,7 @@ open Hms.Core Hms.Core.Comp Hms.Core.VM
 /-- Inversion of `okGS` on expression statements. -/
 theorem okGS_exprS_inv (fr il rt : Bool) (sp : Span) (e : Expr) (h : Frag.okFS fr il rt (.exprS sp e) = true) :
     (∃ asp op isp ity name isFn r,
-      e = .assign asp op (.ident isp ity name false isFn false) r ∧ Frag.okGE r = true ∧
+      e = .assign asp op (.ident isp ity name false isFn false) r ∧ Frag.okXE r = true ∧
       (∀ o, op = some o → Frag.isLogical o = false)) ∨
     (∃ isp ty c t eb, e = .ifE isp ty c t (some eb) ∧ ty.isNull = true ∧ Frag.okGE c = true ∧
       Frag.okFBS fr il rt t = true ∧ Frag.okFBS fr il rt eb = true) ∨
@@ -22,10 +23,11 @@ theorem okGS_exprS_inv (fr il rt : Bool) (sp : Span) (e : Expr) (h : Frag.okFS f
     (∃ tsp ty t ci c, e = .tryE tsp ty t ci c ∧ ty.isNull = true ∧ Frag.okFBS fr false false t = true ∧
       Frag.okFBS fr il rt c = true) ∨
     (∃ msp ty c arms db, e = .matchE msp ty c arms (some (.blockE db)) ∧ ty.isNull = true ∧ Frag.okGE c = true ∧
-      Frag.okFArmsS fr il rt arms = true ∧ Frag.okFBS fr il rt db = true) := by
+      Frag.okFArmsS fr il rt arms = true ∧ Frag.okFBS fr il rt db = true) ∨
+    (∃ asp op isp ity b i r, e = .assign asp op (.index isp ity b i) r) := by
   cases e <;> try (simp [Frag.okFS] at h; done)
   case matchE msp ty c arms dflt =>
-    right; right; right; right; right
+    right; right; right; right; right; left
     cases dflt with
     | none => simp [Frag.okFS] at h
     | some d =>
@@ -34,12 +36,16 @@ theorem okGS_exprS_inv (fr il rt : Bool) (sp : Span) (e : Expr) (h : Frag.okFS f
       simp only [Frag.okFS, Bool.and_eq_true] at h
       exact ⟨msp, ty, c, arms, db, rfl, h.1.1.1, h.1.1.2, h.1.2, h.2⟩
   case assign asp op l r =>
+    cases l <;> try (cases op <;> simp [Frag.okFS] at h; done)
+    case index isp ity b i =>
+      right; right; right; right; right; right
+      exact ⟨asp, op, isp, ity, b, i, r, rfl⟩
     left
-    cases op <;> cases l <;> try (simp [Frag.okFS] at h; done)
+    cases op
     · rename_i isp ity name isGlobal isFn isSing
       cases isGlobal <;> cases isSing <;> simp [Frag.okFS] at h
       exact ⟨asp, none, isp, ity, name, isFn, r, rfl, h, by simp⟩
-    · rename_i o isp ity name isGlobal isFn isSing
+    · rename_i isp ity name isGlobal isFn isSing o
       cases isGlobal <;> cases isSing <;> simp [Frag.okFS] at h
       exact ⟨asp, some o, isp, ity, name, isFn, r, rfl, h.2, by simp [h.1]⟩
   case ifE isp ty c t el =>
@@ -247,7 +253,7 @@ theorem pgs_step (G : GCtx) (hG : G.OK') (n : Nat) (hPE : ∀ m, m ≤ n → PE 
     obtain ⟨hplE, hplS⟩ := hpl.append
     obtain ⟨iset, _⟩ := hplS.instr (i := .setVar (freshVar G.mod { env with lm := ce.2 } name).1) rfl
     have hNm : A.N (freshVar G.mod { env with lm := ce.2 } name).1 := hN _ (by simp [codeVars, var?])
-    have h1 := hPEn A hA e spec ip stk mem env.lm env.scopes env.vm he hws (fun x hx => hT x (Or.inr hx))
+    have h1 := px_all G n hPE A hA e spec ip stk mem env.lm env.scopes env.vm he hws (fun x hx => hT x (Or.inr hx))
       (hce ▸ hplE) hrel.rel hsp
     rw [hce] at h1
     rw [evalStmt_let]
@@ -256,18 +262,18 @@ theorem pgs_step (G : GCtx) (hG : G.OK') (n : Nat) (hPE : ∀ m, m ≤ n → PE 
     cases r1 with
     | error ce' => exact SimGS.of_exprError _ hrel hls h1
     | ok v =>
-      obtain ⟨hfr, mem1, hrun, hml⟩ := h1
+      obtain ⟨hfr, mem1, ov, hrun, hml⟩ := h1
       have hcell := hA.cell _ hNm
       have hrel1 : GRel G A env.scopes env.vm st1.scopes mem1 := by rw [hfr]; exact hrel.memLe hml
       have hdecl := GRel.declare (env := { env with lm := ce.2 }) hA hrel1 name (hT name (Or.inl rfl)) v hNm
       have hout : (declareSt name v st1).world = st1.world := by
         unfold declareSt; cases st1.scopes <;> rfl
-      have hset : Runs G.fr G.code G.lim G.s A.fn A.rest A.mp (ip + nI ce.1) (⟨v, none⟩ :: stk) mem1 st1.world
+      have hset : Runs G.fr G.code G.lim G.s A.fn A.rest A.mp (ip + nI ce.1) (⟨v, ov⟩ :: stk) mem1 st1.world
           (ip + nI ce.1 + 1) stk
           (mem1.set (A.mp - (A.σ (freshVar G.mod { env with lm := ce.2 } name).1 : Int)) v) st1.world :=
         Runs.of_runsTo (fr := G.fr) (fun it_ => RunsTo.of_exec1 (fun k =>
           reach_setVar G.code G.lim (baseOf (withIt G.s it_) A.fn A.rest A.mp st1.world) _ k stk mem1 ⟨A.fn, 0⟩ A.rest A.c rfl
-            hA.code _ sp v none iset hcell.1 hcell.2.1))
+            hA.code _ sp v ov iset hcell.1 hcell.2.1))
       refine ⟨?_, mem1.set (A.mp - (A.σ (freshVar G.mod { env with lm := ce.2 } name).1 : Int)) v, ?_,
         (hml.mono (by omega)).trans (MemLe.set _ _ _ _ _ hcell.2.2), ?_⟩
       · have h1 := declareSt_frame name v st1
@@ -363,7 +369,17 @@ theorem pgs_step (G : GCtx) (hG : G.OK') (n : Nat) (hPE : ∀ m, m ≤ n → PE 
     rcases okGS_exprS_inv _ _ _ sp e hs with ⟨asp, op, isp, ity, name, isFn, r, rfl, hr, hlog⟩ |
       ⟨isp, ty, cnd, t, eb, rfl, hty, hcnd, ht, heb⟩ | ⟨isp, ty, cnd, t, rfl, hty, hcnd, ht⟩ |
       ⟨csp, cty, isp, ity, name, g, f, si, args, sw, rfl, hcall⟩ | ⟨tsp, tty, tb, ci, cb, rfl, htty, htb, hcb⟩ |
-      ⟨msp, mty, mc, arms, db, rfl, hmty, hmc, hmarms, hmdb⟩
+      ⟨msp, mty, mc, arms, db, rfl, hmty, hmc, hmarms, hmdb⟩ | ⟨asp, op, isp, ity, b, i, r, rfl⟩
+    rotate_right
+    · -- `l[i] = e`, `l[i] op= e`
+      rw [evalStmt_exprS]
+      match n, hPE with
+      | 0, _ => rw [evalExpr]; trivial
+      | 1, _ => rw [evalExpr_assign_gen, evalPlace]; trivial
+      | n' + 2, hPE =>
+      exact SimGS.exprS _ (idxAssign_step G n' (px_all G n' (fun m hm => hPE m (by omega)))
+        (px_all G (n' + 1) (fun m hm => hPE m (by omega))) A hA loops lscopes d sp asp op isp ity b i r env spec ip stk mem
+        hs hT hws hpl hls hrel hsp)
     · -- assignments
       simp only [Frag.wsGS, Bool.and_eq_true] at hws
       obtain ⟨hname, hwr⟩ := hws
@@ -385,7 +401,7 @@ theorem pgs_step (G : GCtx) (hG : G.OK') (n : Nat) (hPE : ∀ m, m ≤ n → PE 
       | 0, _, _, _, _, _ => rw [evalExpr]; trivial
       | 1, _, _, _, _, _ => rw [evalExpr_assign_short]; trivial
       | n' + 2, hPE, _, _, _, _ =>
-      have hPE1 := hPE (n' + 1) (by omega)
+      have hPE1 := px_all G (n' + 1) (fun m hm => hPE m (by omega))
       cases op with
       | none =>
         simp only [cgS, hρ, Option.getD_some] at hN hpl ⊢
@@ -401,13 +417,13 @@ theorem pgs_step (G : GCtx) (hG : G.OK') (n : Nat) (hPE : ∀ m, m ≤ n → PE 
         cases r1 with
         | error ce' => exact SimGS.of_exprError _ hrel hls h1
         | ok v =>
-          obtain ⟨hfr, mem1, hrun, hml⟩ := h1
+          obtain ⟨hfr, mem1, ov, hrun, hml⟩ := h1
           have hrel1 : GRel G A env.scopes env.vm st1.scopes mem1 := by rw [hfr]; exact hrel.memLe hml
           obtain ⟨ss', hass, hrel'⟩ := hrel1.assign hA name hxT m hρ v
           simp only [writePlace_var name false v st1 ss' hass]
           refine ⟨by rw [hfr], _, (hrun.trans (Runs.of_runsTo (fr := G.fr) (fun it_ => RunsTo.of_exec1 (fun k =>
             reach_setVar G.code G.lim (baseOf (withIt G.s it_) A.fn A.rest A.mp st1.world) _ k stk mem1 ⟨A.fn, 0⟩ A.rest A.c rfl
-              hA.code _ asp v none iset hm0 hm1)))).cast ?_,
+              hA.code _ asp v ov iset hm0 hm1)))).cast ?_,
             (hml.mono (by omega)).trans (MemLe.set _ _ _ _ _ hcell.2.2), hrel'⟩
           rw [nI_append, nI_instr _ _ _ rfl]; simp only [nI_nil]; omega
       | some o =>
@@ -438,12 +454,12 @@ theorem pgs_step (G : GCtx) (hG : G.OK') (n : Nat) (hPE : ∀ m, m ≤ n → PE 
           exact SimGS.of_exprError _ hrel hls
             (SimGE.error_after (st0 := spec) (nI cr.1) [⟨cur, none⟩] hget (by cases spec; rfl) (MemLe.refl _ _ _) h1)
         | ok b =>
-          obtain ⟨hfr, mem1, hrun, hml⟩ := h1
+          obtain ⟨hfr, mem1, ob, hrun, hml⟩ := h1
           simp only []
           have hsp1 := hsp.world st1 hfr
           have ha := fun it_ => exec_arith G.code G.lim (baseOf (withIt G.s it_) A.fn A.rest A.mp st1.world) ⟨A.fn, 0⟩
             A.rest A.c A.σ A.lab
-            rfl hA.code o asp cur b none none st1 (ip + 1 + nI cr.1) stk mem1 hlog hplA rfl
+            rfl hA.code o asp cur b none ob st1 (ip + 1 + nI cr.1) stk mem1 hlog hplA rfl
           rcases hb : binOp o cur b asp st1 with ⟨rb, st2⟩
           have hst2 : st2 = st1 := by
             have := (binOp_heapOnly o cur b asp).state st1
